@@ -54,6 +54,10 @@ func gen(t *rapid.T) Case {
 		MaxMembers: rapid.SampledFrom([]int{1, 2, 3, 6}).Draw(t, "maxmem"), MaxPts: rapid.SampledFrom([]int{1, 2, 3, 8}).Draw(t, "maxpts"),
 		Coord: vkit.CoordAnyBits()}
 	c.G = vkit.GenGJ(t, o)
+	if c.Neg == "" && rapid.IntRange(0, 39).Draw(t, "deep") == 17 {
+		// inside 15 to 66 nested collections
+		c.G = vkit.WrapDeep(c.G, rapid.SampledFrom([]int{16, 16, 32, 64}).Draw(t, "deepn")+rapid.IntRange(-1, 2).Draw(t, "deepoff"), rapid.Uint64().Draw(t, "deeppat"))
+	}
 	if c.Neg == "" && rapid.IntRange(0, 149).Draw(t, "huge") == 77 {
 		c.Huge = rapid.OneOf(rapid.IntRange(65530, 65545), rapid.IntRange(130040, 130060), rapid.IntRange(131065, 131080), rapid.IntRange(140000, 300000)).Draw(t, "hugen")
 		c.HugeWrap = rapid.IntRange(0, 2).Draw(t, "hugewrap")
